@@ -35,7 +35,7 @@ func runC17(c *mon.Ctx) {
 	r := c.Rng
 	// Part A: lists.
 	opts := gen.ZOpts{MaxFiles: c.Scale(10, 24), MaxData: 8, Modes: true, FakeSize: true}
-	n := c.Share(c.Scale(10_000, 500_000))
+	n := c.Share(c.Scale(30_000, 500_000))
 	for i := 0; i < n; i++ {
 		id := fmt.Sprintf("l%d", i)
 		files, theme := gen.ZList(r, opts)
@@ -54,7 +54,7 @@ func runC17(c *mon.Ctx) {
 	}
 	defer os.RemoveAll(base)
 	topts := gen.ZOpts{MaxFiles: c.Scale(10, 24), MaxData: c.Scale(32, 128), Plain: true}
-	nt := c.Share(c.Scale(2_000, 100_000))
+	nt := c.Share(c.Scale(6_000, 100_000))
 	for i := 0; i < nt; i++ {
 		id := fmt.Sprintf("t%d", i)
 		files, theme := gen.ZList(r, topts)
